@@ -41,7 +41,7 @@ Proof. exact prefix_from_length. Qed.
 Print Assumptions C09_prefix_count.
 
 (* The whole round trip, PROVED on the fragment of Spec/Fragment.v (trees of any size and depth built from
-   plain paragraphs of one or more lines, ATX headings, fenced code blocks, block quotes and lists of one or more items separated by blank lines (same bullet, or same delimiter with any numbers; the items but the last loose)): parsing the spelled
+   plain paragraphs of one or more lines, ATX headings, fenced code blocks, block quotes and lists of one or more items, each followed by a blank line or directly by the next (same bullet, or same delimiter with any numbers; an item followed by a blank line or holding two blocks is loose, the list is tight only if no item is)): parsing the spelled
    text with the Markdown renderer's token sets (Document(lines), with the fuel Document really gives) and
    rendering the tree without a line limit writes back exactly the text - so the output has the same
    meaning, is a fixed point, and the normal form is reproduced exactly.  There is no side condition: the two the
